@@ -46,18 +46,18 @@ def prepare(uname, ucfg, repo, scratch, here):
                 rel, new, rules = m.group(1), m.group(2), m.group(3)
                 text = open(os.path.join(reposrc, rel)).read()
                 applied = []
-                for rule in rules.split(";"):
+                for rule in rules.split(" ;; "):
                     a, b = [x.strip() for x in rule.split("=>")]
                     applied.append((a, b, text.count(a)))
                     text = text.replace(a, b)
                 open(os.path.join(root, new), "w").write(text)
                 rewrites.append({"file": rel, "as": new, "rules": applied})
-            s = s.replace("@REPO@", reposrc).replace("@SHIMS@", os.path.join(here, "kani", "shims"))
+            s = s.replace("@REPO@", reposrc).replace("@SHIMS@", os.path.join(here, "kani", "shims")).replace("@CRATE@", dst)
             open(p, "w").write(s)
     lock = os.path.join(repo, "Cargo.lock")
     if not os.path.exists(lock):
         lock = "/repo/Cargo.lock"
-    if os.path.exists(lock) and not os.path.exists(os.path.join(dst, "Cargo.lock")):
+    if os.path.exists(lock) and not os.path.exists(os.path.join(dst, "Cargo.lock")) and not ucfg.get("no_lock"):
         shutil.copy(lock, os.path.join(dst, "Cargo.lock"))
     return dst, rewrites
 
